@@ -37,7 +37,9 @@ fn key_case(t: Tier) -> BoxedStrategy<KeyCase> {
     (
         prop_oneof![3 => prog::ops_strategy(20, 3, 0), 1 => prog::ops_strategy(6, 1, 2), 2 => Just(Vec::new())],
         proptest::option::weighted(0.35, (3u8..=6, 1u8..32, proptest::collection::vec(fe_random(), 0..3))),
-        proptest::option::weighted(0.4, (3u32..=max_k, -8i8..=8)),
+        // sizes up to 2^max_k; one padded case in twelve reaches 2^10 / 2^11 rows
+        // (keys with 1024+ / 2048+ points and coefficients) also in the quick tier
+        proptest::option::weighted(0.4, (prop_oneof![11 => (3u32..=max_k).boxed(), 1 => (10u32..=11).boxed()], -8i8..=8)),
         proptest::collection::vec(any::<u8>(), 0..20),
         0u8..3,
         any::<u64>(),
